@@ -25,7 +25,6 @@ import (
 
 	reuseport "github.com/libp2p/go-reuseport"
 	"github.com/sirupsen/logrus"
-	"golang.org/x/time/rate"
 
 	"github.com/atlassian/gostatsd"
 	"github.com/atlassian/gostatsd/pkg/stats"
@@ -127,7 +126,7 @@ func (rr *recvRunner) run(in input) hlib.Case {
 	dead := func(what string) hlib.Case {
 		msg := firstPanicLines(rr.stderr.String())
 		rr.stop()
-		return hlib.Case{Input: in, Class: in.Class + "/" + in.Sock + "/crash", Nontrivial: true,
+		return hlib.Case{Input: in, Class: in.Class + "/" + in.Kind + in.Sock + "/crash", Nontrivial: true,
 			Obs:      map[string]interface{}{"failure": what, "stderr": msg, "datagrams": in.Data.datagrams()},
 			Monitors: []string{what + ": " + msg}}
 	}
@@ -181,6 +180,7 @@ func recvWorker() {
 	sc.Buffer(make([]byte, 1<<20), 1<<28)
 	out := bufio.NewWriter(os.Stdout)
 	n := 0
+	var burst *burstRunner
 	for sc.Scan() {
 		var in input
 		if err := json.Unmarshal(sc.Bytes(), &in); err != nil {
@@ -188,7 +188,15 @@ func recvWorker() {
 			os.Exit(2)
 		}
 		n++
-		c := runRecv(in, filepath.Join(dir, fmt.Sprintf("s%d", n)))
+		var c hlib.Case
+		if in.Kind == "burst" {
+			if burst == nil {
+				burst = newBurstRunner()
+			}
+			c = burst.run(in)
+		} else {
+			c = runRecv(in, filepath.Join(dir, fmt.Sprintf("s%d", n)))
+		}
 		if c.Monitors == nil {
 			c.Monitors = []string{}
 		}
@@ -330,12 +338,9 @@ func runRecv(in input, sockPath string) hlib.Case {
 	st := &pollStatser{vals: map[string]float64{}}
 	logger := logrus.New()
 	logger.SetOutput(io.Discard)
-	limit := rate.Limit(0)
-	if in.LogBad {
-		limit = rate.Inf
-	}
+	limit := in.badLineLimit()
 	ch := make(chan []*statsd.Datagram)
-	dp := statsd.NewDatagramParser(ch, in.NS, in.IgnoreHost, 0, h, limit, false, logger)
+	dp := statsd.NewDatagramParser(ch, in.NS, in.IgnoreHost, 0, h, limit, in.LogRaw, logger)
 	ctx, cancel := context.WithCancel(stats.NewContext(context.Background(), st))
 	defer cancel()
 
